@@ -42,6 +42,8 @@ fn atom(d: &mut Dice) -> String {
     let atoms = [
         "a", "_0", "b", "self.x", "1", "\"s\"", "'c'", "1.5", "x::y", "crate::m::N", "X::<A, B>::f", "<A as T<B, C>>::X", "<Vec<u8>>::new", "_1",
         "b\"bytes\"", "0x1f_u8", "true", "Self::C", "S", "r#type",
+        // qualified paths whose `<` is glued to the next punctuation (`<&`, `<<`, `<*`, `<::`, `<'a`)
+        "<&A as T<B, C>>::X", "<<A as Tr>::Out as T<B, C>>::f", "<*const A as T<B, C>>::X", "<::m::A as T<B, C>>::X", "<&'static A as T<B, C>>::f(self)",
     ];
     atoms[d.pick(atoms.len())].to_string()
 }
